@@ -410,3 +410,357 @@ def t_negate(bnet: str, seed: int):
 
 
 TRANSFORMS = {"rename": t_rename, "reorder": t_reorder, "equivalent": t_equivalent, "negate": t_negate}
+
+
+# --------------------------------------------------------------------------------------------
+# shape families added after the seeded-change review (general shapes first revealed by a change that the
+# earlier families missed; the concrete instance that revealed a shape is the FIRST member of its family, the
+# rest are systematic / seeded variations).  None of them is part of network_family(): the property modules
+# that need a shape pull it explicitly, so the case order of the other modules is unaffected.
+# --------------------------------------------------------------------------------------------
+def _letters(k, start="a"):
+    return [chr(ord(start) + i) for i in range(k)]
+
+
+def switches(k: int, names=None) -> str:
+    """k independent positive-feedback pairs: the full diagram has depth k and 3^k nodes, the root has 2k stable motifs."""
+    names = names or _letters(2 * k)
+    rules = []
+    for i in range(k):
+        x, y = names[2 * i], names[2 * i + 1]
+        rules += [(x, y), (y, x)]
+    return to_bnet(rules)
+
+
+NESTED_SWITCHES = norm("a, a; b, (a & b) | (!a & !b & c); c, (b & c) | (!b & d); d, d | (c & a)")
+
+# ---- (1) deep diagrams: depth >= 2, used with "partial expansion, then a shallower limited call" histories ---------
+DEEP = {
+    "three_switches": switches(3),
+    "nested_switches": NESTED_SWITCHES,
+    "two_switches": switches(2),
+    "switch_toggle": union(switch(), toggle()),
+    "switch_latch_toggle": union(switch(), latch(), toggle()),
+    "deep": HAND["deep"],
+    "multipath": HAND["multipath"],
+    "D5": HAND["D5"],
+    "source_chain": HAND["source_chain"],
+    "switch_maa": union(switch(), MAA_CORE),
+}
+
+
+def deep_nets(seed: int, tier: str):
+    """Networks whose full diagram has depth >= 2 (most of them): the fixed ones above, then seeded unions of 2-3 small
+    bistable / oscillating modules, then 'latch DAG' networks (see latch_dag_net)."""
+    for k, v in DEEP.items():
+        yield (k, v)
+    mods = [switch, toggle, latch, lambda i="": norm(f"g{i}, g{i}"), lambda i="": norm(f"o{i}, !o{i}"), lambda i="": norm(f"m{i}, m{i} | n{i}; n{i}, m{i} & n{i}")]
+    rng = random.Random(seed * 31 + 5)
+    for i in range(40 if tier == "quick" else 400):
+        k = rng.choice([2, 2, 3])
+        yield (f"mods{seed}_{i}", union(*[rng.choice(mods)(j) for j in range(k)]))
+    for i in range(200 if tier == "quick" else 2000):
+        yield (f"ldag{seed}_{i}", latch_dag_net(seed * 7_001 + i))
+
+
+def shallower_histories(max_level: int = 3):
+    """(prefix, final) pairs: an earlier partial expansion, then a level-limited BFS from the root whose limit is SHALLOWER
+    than what the prefix already expanded (so that every node the limited call looks at is already expanded)."""
+    out = []
+    for deep in range(1, max_level + 1):
+        for shallow in range(0, deep):
+            out.append(([["bfs", None, deep, None]], ["bfs", None, shallow, None]))
+    # manual depth-first / level-wise prefixes
+    out.append(([["succ", 0], ["succ", 1], ["succ", 2], ["succ", 3], ["succ", 4], ["succ", 5], ["succ", 6]], ["bfs", None, 0, None]))
+    out.append(([["dfs", None, 2, None]], ["bfs", None, 0, None]))
+    out.append(([["dfs", None, 3, None]], ["bfs", None, 1, None]))
+    out.append(([["dfs", None, None, 4]], ["bfs", None, 0, None]))
+    out.append(([["bfs", None, None, 5]], ["bfs", None, 0, None]))
+    out.append(([["bfs", None, None, 8]], ["bfs", None, 1, None]))
+    out.append(([["min", None, None, False]], ["bfs", None, 0, None]))
+    out.append(([["min", None, None, False]], ["bfs", None, 1, None]))
+    out.append(([["aseeds", None]], ["bfs", None, 0, None]))
+    out.append(([["bfs", None, 1, None], ["succ", 3], ["succ", 5]], ["bfs", None, 1, None]))
+    out.append(([["bfs", 1, 1, None], ["succ", 0]], ["bfs", None, 0, None]))  # expanded below a child first, then the root
+    out.append(([["bfs", 1, 1, None], ["succ", 0]], ["bfs", 1, 0, None]))  # shallower call started at the child
+    return out
+
+
+def random_shallower_history(rng: random.Random, names):
+    """Seeded variant: 1-3 plain limited calls, then a BFS with a level limit in 0..2 from the root (or a node)."""
+    pre = random_history(rng.randrange(1 << 30), names, rng.randint(1, 3), ["bfs", "bfs", "dfs", "succ", "succ", "min", "aseeds"])
+    return pre, ["bfs", None if rng.random() < 0.8 else rng.randint(0, 6), rng.randint(0, 2), None]
+
+
+# ---- (2) several independent negative cycles (every one of them is in the NFVS) plus memory variables --------------
+NEG_CYCLES = {
+    # whole space is the only trap space, one complex attractor; d, e remember their value while a = 0
+    "neg3_mem2": norm("a, !a; b, !b; c, a & !c; d, (d & !a) | (a & b); e, (e & !a) | (a & !b)"),
+    "neg2_mem1": norm("a, !a; b, !b; d, (d & !a) | (a & b)"),
+    "neg2_mem2": norm("a, !a; b, !b; d, (d & !a) | (a & b); e, (e & !b) | (b & !a)"),
+    "neg3": norm("a, !a; b, !b; c, !c"),
+    "neg2_gated": norm("a, !a; b, a & !b; c, (c & !b) | (b & a)"),
+    "negpair_mem": norm("a, !b; b, a; c, !c; d, (d & !a) | (a & c)"),
+    "neg2_switch": norm("a, !a; b, !b; x, (x & !a) | (a & y); y, (y & !b) | (b & x)"),
+}
+
+
+def neg_cycle_net(seed: int) -> str:
+    """k = 2..3 'clock' variables with a negative self-loop (possibly gated by an earlier clock) or a negative 2-cycle, plus
+    1-3 memory variables  m' = (m & !g) | (g & l)  that copy a literal l over the clocks while clock g is on."""
+    rng = random.Random(seed)
+    k = rng.choice([2, 2, 3])
+    clocks, rules = [], []
+    for i in range(k):
+        c = f"c{i}"
+        r = rng.random()
+        if r < 0.5 or not clocks:
+            rules.append((c, f"!{c}"))
+        elif r < 0.7:
+            rules.append((c, f"{rng.choice(clocks)} & !{c}"))
+        elif r < 0.85:
+            rules.append((c, f"!{c} | {rng.choice(['', '!'])}{rng.choice(clocks)}"))
+        else:  # negative 2-cycle with a partner variable
+            rules += [(c, f"!q{i}"), (f"q{i}", c)]
+        clocks.append(c)
+    for j in range(rng.choice([1, 2, 2, 3])):
+        m = f"m{j}"
+        g = rng.choice(clocks)
+        others = [c for c in clocks if c != g] + [f"m{t}" for t in range(j)]
+        lit = rng.choice(["", "!"]) + rng.choice(others)
+        if rng.random() < 0.3 and len(others) > 1:
+            lit = f"({lit} {rng.choice(['&', '|'])} {rng.choice(['', '!'])}{rng.choice(others)})"
+        rules.append((m, f"({m} & {rng.choice(['', '!'])}{g}) | ({rng.choice(['', '!'])}{g} & {lit})" if rng.random() < 0.25 else f"({m} & !{g}) | ({g} & {lit})"))
+    return to_bnet(rules)
+
+
+def neg_cycle_nets(seed: int, tier: str):
+    for k, v in NEG_CYCLES.items():
+        yield (k, v)
+    for i in range(300 if tier == "quick" else 3000):
+        yield (f"negc{seed}_{i}", neg_cycle_net(seed * 9_001 + i))
+
+
+# ---- (3) block-structured networks: a motif-avoidant module regulating a bistable module; input-conditioned modules ---
+XNOR2 = norm("P, (P & Q) | (!P & !Q); Q, (P & Q) | (!P & !Q)")  # fixed point 11 and the motif-avoidant cycle {00, 01, 10}
+# upstream modules: (rules, output variable that is 0 on the motif-avoidant attractor and 1 in the stable motif)
+UP_MODULES = {"core": (MAA_CORE, "C"), "xnor": (XNOR2, "P")}
+# downstream bistable modules with a hook {h} for an upstream literal
+DOWN_MODULES = {
+    "switch_or": "X, Y; Y, X | {h}",
+    "switch_and": "X, Y; Y, X & {h}",
+    "switch_or2": "X, Y | {h}; Y, X | {h}",
+    "toggle_or": "X, !Y | {h}; Y, !X",
+    "latch_or": "X, X | {h}",
+    "latch_and": "X, X & {h}",
+    "and3_or": "X, Y & Z; Y, (X & Z) | {h}; Z, X & Y",
+    "maa_down": "X, ((!X & !Y) | Z) & {h}; Y, ((!X & !Y) | Z) & {h}; Z, X & Y",
+}
+BLOCKS = {
+    # first: the two instances that revealed the shape
+    "core__switch_or": norm(MAA_CORE + "\n" + DOWN_MODULES["switch_or"].format(h="C").replace(";", "\n")),
+    "cond_core": norm("s, s; A, (!A & !B) | C; B, (!A & !B) | C; C, (A & B) | (!s & (A | B))"),
+}
+
+
+def block_net(up: str, down: str, neg: bool = False, extra: str | None = None) -> str:
+    rules, outv = UP_MODULES[up]
+    text = rules + "\n" + norm(DOWN_MODULES[down].format(h=("!" if neg else "") + outv))
+    if extra:
+        text = union(text, extra)
+    return norm(text)
+
+
+def cond_net(kind: int) -> str:
+    """A module with the SAME variable set under both values of the source s: motif-avoidant under one value, clean under the other."""
+    return [
+        BLOCKS["cond_core"],
+        norm("s, s; A, (!A & !B) | C; B, (!A & !B) | C; C, (A & B) | (s & (A | B))"),  # MAA under s = 0
+        norm("s, s; P, (P & Q) | (!P & !Q) | (!s & (P | Q)); Q, (P & Q) | (!P & !Q) | (!s & (P | Q))"),
+        norm("s, s; P, (P & Q) | (!P & !Q) | (s & (P | Q)); Q, (P & Q) | (!P & !Q) | (s & (P | Q))"),
+        norm("s, s; r, r; A, (!A & !B) | C; B, (!A & !B) | C; C, (A & B) | (!s & r & (A | B))"),  # two sources, MAA in 3 of 4 valuations
+        norm("s, s; A, (!A & !B) | C; B, (!A & !B) | C; C, (A & B) | (!s & (A | B)); X, Y; Y, X | C"),  # conditioned module with a downstream switch
+        norm("s, s; A, ((!A & !B) | C) | (!s & A); B, (!A & !B) | C; C, A & B"),
+        norm("t, t; s, s; A, (!A & !B) | C; B, (!A & !B) | C; C, (A & B) | (!s & (A | B)); P, (P & Q) | (!P & !Q) | (!t & (P | Q)); Q, (P & Q) | (!P & !Q) | (!t & (P | Q))"),
+    ][kind]
+
+
+def block_nets(seed: int, tier: str):
+    """(name, bnet): MAA module -> downstream bistable module (all module pairs, both hook polarities), input-conditioned modules,
+    the same with an independent extra module, then seeded compositions."""
+    seen = set()
+
+    def emit(name, b):
+        if b not in seen and len(variables(b)) <= 8:
+            seen.add(b)
+            return [(name, b)]
+        return []
+
+    for k, v in BLOCKS.items():
+        yield from emit(k, v)
+    for kind in range(8):
+        yield from emit(f"cond{kind}", cond_net(kind))
+    for up in UP_MODULES:
+        for down in DOWN_MODULES:
+            for neg in (False, True):
+                yield from emit(f"{up}__{down}{'_neg' if neg else ''}", block_net(up, down, neg))
+    for up in UP_MODULES:
+        for down in ("switch_or", "latch_or", "switch_and"):
+            for extra_name, extra in (("switch", norm("M1, M2; M2, M1")), ("source", norm("s, s")), ("osc", norm("O, !O"))):
+                yield from emit(f"{up}__{down}+{extra_name}", block_net(up, down, False, extra))
+    rng = random.Random(seed * 77 + 3)
+    for i in range(60 if tier == "quick" else 600):
+        up = rng.choice(list(UP_MODULES))
+        rules, outv = UP_MODULES[up]
+        upvars = variables(rules)
+        # a random 2-3 variable downstream part over X, Y, Z in which some rules read an upstream variable
+        body = random_net(seed * 13_007 + i, rng.choice([2, 2, 3]), p_const=0.0, p_src=0.1, p_self=0.5, names=["X", "Y", "Z"][: rng.choice([2, 2, 3])])
+        drules = []
+        for v, e in parse_rules(body):
+            if rng.random() < 0.6:
+                e = f"({e}) {rng.choice(['&', '|'])} {rng.choice(['', '!'])}{rng.choice(upvars)}"
+            drules.append((v, e))
+        text = rules + "\n" + to_bnet(drules)
+        if rng.random() < 0.3:
+            text = norm("s, s") + "\n" + text.replace("C, A & B", "C, (A & B) | (!s & (A | B))")
+        yield from emit(f"blk{seed}_{i}", norm(text))
+
+
+# ---- (4) ties between minimal source blocks whose variable names interleave alphabetically -------------------------
+def tie_net(names_a, names_b, down=None, module: str = "switch", names_c=None) -> str:
+    def mod(x, y):
+        if module == "switch":
+            return [(x, y), (y, x)]
+        if module == "toggle":
+            return [(x, f"!{y}"), (y, f"!{x}")]
+        return [(x, f"{x} | {y}"), (y, f"{x} & {y}")]
+
+    rules = mod(*names_a) + mod(*names_b) + (mod(*names_c) if names_c else [])
+    if down:
+        rules.append(down)
+    return to_bnet(sorted(rules))
+
+
+def tie_nets(seed: int, tier: str):
+    """Two or three minimal blocks with the same number of stable motifs; block variable names interleave (A,D / B,C ...)."""
+    yield ("tie_AD_BC_E", tie_net(("A", "D"), ("B", "C"), ("E", "A & B")))
+    yield ("tie_AD_BC", tie_net(("A", "D"), ("B", "C")))
+    yield ("tie_AC_BD_E", tie_net(("A", "C"), ("B", "D"), ("E", "A | B")))
+    yield ("tie_toggle_AD_BC_E", tie_net(("A", "D"), ("B", "C"), ("E", "A & !B"), module="toggle"))
+    yield ("tie3_AF_BE_CD", tie_net(("A", "F"), ("B", "E"), None, names_c=("C", "D")))
+    yield ("tie_lower_ad_bc_e", tie_net(("a", "d"), ("b", "c"), ("e", "a & b")))
+    yield ("tie_long_names", tie_net(("gene_1", "gene_4"), ("gene_2", "gene_3"), ("out", "gene_1 & gene_2")))
+    yield ("tie_mixed_modules", to_bnet(sorted([("A", "D"), ("D", "A"), ("B", "!C"), ("C", "!B"), ("E", "A & B")])))
+    yield ("tie_maa_AD_BC", norm("A, (A & D) | (!A & !D); D, (A & D) | (!A & !D); B, (B & C) | (!B & !C); C, (B & C) | (!B & !C)"))
+    rng = random.Random(seed * 41 + 9)
+    pool = list("ABCDEFGH")
+    for i in range(20 if tier == "quick" else 200):
+        vs = rng.sample(pool, 5)
+        rng.shuffle(vs)
+        down = (vs[4], f"{rng.choice(['', '!'])}{vs[0]} {rng.choice(['&', '|'])} {rng.choice(['', '!'])}{vs[2]}") if rng.random() < 0.7 else None
+        yield (f"tie{seed}_{i}", tie_net((vs[0], vs[1]), (vs[2], vs[3]), down, module=rng.choice(["switch", "switch", "toggle", "asym"])))
+
+
+# ---- (5) multi-path DAGs: nodes reachable from the root by paths of different lengths (nested shortcut edges) --------
+MULTIPATH = {
+    "nested_shortcuts": norm("x0, x0 | x5; x1, x1 & !x0; x2, x2 | !x5; x3, x3 & !x2 & x4; x4, x2; x5, x5 | !x3"),
+    "D5": HAND["D5"],
+    "multipath": HAND["multipath"],
+    "multipath5": norm("a, a | b; b, b | a; c, c | (a & b); d, d & c; e, e | (d & a)"),
+    "or_chain": norm("a, a | b; b, b | c; c, c | a; d, d & a; e, e & d & b"),
+    "nested_switches": NESTED_SWITCHES,
+}
+
+
+def latch_dag_net(seed: int, n: int | None = None) -> str:
+    """Every variable is a set- or reset-latch  x' = x | c  /  x' = x & c  (c a conjunction of 1-2 literals over other variables)
+    or, occasionally, a copy of a literal.  Such networks have many nested trap spaces and stable motifs that percolate into
+    spaces lying below other motifs, i.e. diagrams with shortcut edges."""
+    rng = random.Random(seed)
+    n = n or rng.choice([4, 5, 5, 6, 6, 6])
+    names = [f"x{i}" for i in range(n)]
+    rules = []
+    for v in names:
+        others = [w for w in names if w != v]
+        lits = [rng.choice(["", "!"]) + w for w in rng.sample(others, rng.choice([1, 1, 2]))]
+        c = " & ".join(lits)
+        r = rng.random()
+        if r < 0.42:
+            rules.append((v, f"{v} | ({c})" if len(lits) > 1 else f"{v} | {c}"))
+        elif r < 0.84:
+            rules.append((v, f"{v} & {c}"))
+        else:
+            rules.append((v, lits[0]))
+    return to_bnet(rules)
+
+
+def multipath_nets(seed: int, tier: str):
+    for k, v in MULTIPATH.items():
+        yield (k, v)
+    for i in range(400 if tier == "quick" else 4000):
+        yield (f"ldag{seed}_{i}", latch_dag_net(seed * 7_001 + i))
+
+
+def depth_first_histories(rng: random.Random | None = None):
+    """Histories in which the sub-diagram below a node exists before a longer path to that node is discovered."""
+    out = [
+        [["dfs", None, None, None]],
+        [["dfs", None, 3, None], ["dfs", None, None, None]],
+        [["dfs", None, None, 5], ["bfs", None, None, None]],
+        [["succ", 0], ["dfs", 1, None, None], ["dfs", 2, None, None], ["dfs", None, None, None]],
+        [["succ", 0], ["dfs", 2, None, None], ["dfs", 1, None, None], ["bfs", None, None, None]],
+        [["succ", 0], ["dfs", -1, None, None], ["dfs", -2, None, None], ["dfs", None, None, None]],
+        [["min", None, None, False], ["dfs", None, None, None]],
+        [["aseeds", None], ["dfs", None, None, None]],
+    ]
+    if rng is not None:
+        # manual depth-first order: always expand the most recently created unexpanded node (ids taken modulo the size)
+        h = [["succ", 0]]
+        for _ in range(rng.randint(3, 10)):
+            h.append(["succ", -rng.randint(1, 3)])
+        h.append(rng.choice([["dfs", None, None, None], ["bfs", None, None, None]]))
+        out.append(h)
+    return out
+
+
+# ---- (6) non-default configurations -------------------------------------------------------------------------------
+MANY_MOTIFS = {
+    "switches3_tail": norm(switches(3) + "\ng, a & c & e"),  # root with 6 stable motifs
+    "three_switches": switches(3),
+    "two_switches": switches(2),
+    "switch_latch_toggle": DEEP["switch_latch_toggle"],
+    "sources3": sources(3),
+}
+
+
+def config_variant(rng: random.Random, p_each: float = 0.5) -> dict:
+    """A configuration with at least one NON-default value (small limits / thresholds / budgets)."""
+    cfg = {}
+    if rng.random() < p_each:
+        cfg["max_motifs_per_node"] = rng.choice([0, 1, 2, 3, 4, 5])
+    if rng.random() < p_each:
+        cfg["attractor_candidates_limit"] = rng.choice([0, 1, 2, 3])
+    if rng.random() < p_each * 0.6:
+        cfg["retained_set_optimization_threshold"] = rng.choice([0, 1, 2, 3])
+    if rng.random() < p_each * 0.4:
+        cfg["minimum_simulation_budget"] = rng.choice([0, 1])
+    if rng.random() < p_each * 0.4:
+        cfg["nfvs_size_threshold"] = rng.choice([0, 1, 3])
+    if not cfg:
+        cfg["max_motifs_per_node"] = rng.choice([1, 2, 3, 4])
+    return cfg
+
+
+def interleave(*gens):
+    """Round-robin over generators (each argument is (generator, k): take k items per round) until all are exhausted."""
+    its = [(iter(g), k) for g, k in gens]
+    live = list(range(len(its)))
+    while live:
+        for idx in list(live):
+            it, k = its[idx]
+            for _ in range(k):
+                try:
+                    yield next(it)
+                except StopIteration:
+                    live.remove(idx)
+                    break
